@@ -10,7 +10,9 @@ cmd:
   {"t":"mi","bases":[n…],"mro":[n…]}            class X(*bases); mro = C3 tail, restricted to case classes
   {"t":"using_props","p":n,"init":[[k,v]…],"wrap":bool}   p.using(properties=dict | Properties(dict))
   {"t":"using_shared","p":n,"owner":n}          p.using(properties=<the Properties object owned by owner>)
-  {"t":"with_props","p":n,"pairs":[[k,v]…],"split":m}      first m pairs positional, the rest keywords
+  {"t":"with_props","p":n,"pairs":[[k,v]…],"split":m,"form":"list"|"mapping"|"iter"|"none"}
+                                                 first m pairs as THE positional argument (a list of pairs, a
+                                                 mapping, an iterator; "none": folded into the keywords), rest keywords
   {"t":"new","c":n}  {"t":"new_with","c":n,"m":[[k,v]…]}  {"t":"assign","i":n,"m":[[k,v]…]}
 observation = {"start": [[view, items]…], "steps": [{"r": result, "d": [[view, items]…]}…]}
 where "d" lists every view whose list(items()) differs from the previous step (new views always).
@@ -161,7 +163,19 @@ class Real:
             kw = {}
             for k, v in pairs[m:]:
                 kw[k] = v
-            self.classes.append(self.classes[cmd["p"]].with_properties(*pairs[:m], **kw))
+            # the documented call: at most ONE positional argument — an iterable of pairs or a mapping — plus
+            # keywords (fix 6f9ffeb); "none": no positional argument at all
+            form = cmd.get("form", "list")
+            parent = self.classes[cmd["p"]]
+            if form == "none" or m == 0:
+                new = parent.with_properties(**kw) if m == 0 else parent.with_properties(**dict(pairs[:m], **kw))
+            elif form == "mapping":
+                new = parent.with_properties(dict(pairs[:m]), **kw)
+            elif form == "iter":
+                new = parent.with_properties(iter(pairs[:m]), **kw)
+            else:
+                new = parent.with_properties(pairs[:m], **kw)
+            self.classes.append(new)
             return None
         if t == "new":
             self.insts.append(self.classes[cmd["c"]]())
@@ -569,6 +583,12 @@ def check_case(case, max_unknown=1):
         exp = ref.do(cmd)
         alt = corr.do(cmd)
         got = real.do(cmd)
+        if cmd["t"] != "op" and got[0] == "err":
+            # a derivation / instantiation the documentation allows was refused: the rest of the history
+            # cannot be run
+            fails.append({"clause": "constructor-accepts-documented-call", "step": step, "view": None, "keys": [],
+                          "expected": "a new class / instance", "observed": got[1]})
+            return fails
         if not _result_matches(exp, got):
             known = _result_matches(alt, got)
             if not known:
@@ -753,7 +773,8 @@ def _struct_cmd(rng, sh, p, nkeys, shared):
     if r < 0.70:
         sh.add(sh.mro[p], False)
         pairs = _rand_pairs(rng, nkeys, 0, 3)
-        return {"t": "with_props", "p": p, "pairs": pairs, "split": rng.randint(0, len(pairs))}
+        return {"t": "with_props", "p": p, "pairs": pairs, "split": rng.randint(0, len(pairs)),
+                "form": rng.choice(["list", "list", "mapping", "iter", "none"])}
     owners = [i for i, f in enumerate(sh.has_desc) if f]
     if rng.random() < shared and owners:
         sh.add(sh.mro[p], True)
@@ -888,6 +909,12 @@ class C17(Property):
             {"t": "using_props", "p": 0, "init": [], "wrap": False},
             {"t": "op", "view": ["c", 1], "op": "setitem", "k": "b", "v": 1},
             {"t": "mi", "bases": [1, 2], "mro": [1, 2, 0]}]})
+        # fix 6f9ffeb: with_properties takes the documented iterable of pairs / a mapping / no positional argument
+        out.append({"rtype": "String", "root": "using", "init": [["k", 1]], "cmds": [
+            {"t": "with_props", "p": 0, "pairs": [["a", 1], ["b", 2]], "split": 2, "form": "list"},
+            {"t": "with_props", "p": 1, "pairs": [["a", 3], ["c", 4]], "split": 1, "form": "mapping"},
+            {"t": "with_props", "p": 2, "pairs": [["d", 5]], "split": 0, "form": "none"},
+            {"t": "with_props", "p": 0, "pairs": [["e", 6], ["e", 7], ["f", 8]], "split": 3, "form": "iter"}]})
         # seeded mutation C17 view-frame-chain-cache: a held view object of the lowest class (and of an instance)
         # is read, then an intermediate class that was never written gets its first write / deletion
         out.append({"rtype": "String", "root": "using", "init": [["k", 1]], "cmds": [
@@ -934,6 +961,9 @@ class C17(Property):
         steps = []
         for cmd in case["cmds"]:
             res = real.do(cmd)
+            if cmd["t"] != "op" and res[0] == "err":
+                steps.append({"r": _canon_result(res), "d": []})
+                break                    # the store the later commands refer to was not built
             new = real.snapshot()
             old = {tuple(v): items for v, items in snap}
             delta = [[v, items] for v, items in new if tuple(v) not in old or old[tuple(v)] != items]
